@@ -1,52 +1,8 @@
-//! C16 — re-serialising any parsed message is stable. Harnesses start from SYMBOLIC BYTES (not
-//! from well-formed values): parse, write, parse again, write again.
-use super::gen::*;
-use super::refcodec::*;
-use super::util::*;
-use crate::dlt::*;
-use crate::parse::*;
-
-pub fn check_stable(buf: &[u8]) {
-    if let Ok((_, ParsedMessage::Item(m))) = dlt_message(buf, None, false) {
-        let w = m.as_bytes();
-        // "if the re-serialisation of that message has the length its own header declares"
-        if w.len() == m.header.overall_length() as usize {
-            match dlt_message(&w, None, false) {
-                Ok((rest, ParsedMessage::Item(m2))) => {
-                    assert!(rest.len() == 0);
-                    assert!(message_eq(&m, &m2));
-                    assert!(bytes_eq(&m2.as_bytes(), &w));
-                }
-                _ => { assert!(false); }
-            }
-        }
-        kani::cover!(w.len() == m.header.overall_length() as usize);
-    }
-}
-
-#[kani::proof]
-#[kani::stub(alloc::fmt::format, fmt_stub)]
-#[kani::unwind(14)]
-fn c16_stable_arbitrary_n12() {
-    const N: usize = 12;
-    let buf: [u8; N] = kani::any();
-    let n: usize = kani::any();
-    kani::assume(n >= 4 && n <= N);
-    check_stable(&buf[..n]);
-}
-
-/// verbose message, one argument whose type-info word and bytes are symbolic (non-canonical
-/// bits, every kind), minimal headers
-#[kani::proof]
-#[kani::stub(alloc::fmt::format, fmt_stub)]
-#[kani::unwind(14)]
-fn c16_stable_verbose_arg() {
-    const N: usize = 24;
-    let mut buf: [u8; N] = kani::any();
-    buf[0] = (buf[0] & 0xE2) | 1;
-    buf[4] = (buf[4] & 0xF0) | 0x01;
-    buf[5] = 1;
-    let n: usize = kani::any();
-    kani::assume(n >= 14 && n <= N);
-    check_stable(&buf[..n]);
-}
+//! C16 — re-serialising a parsed message is stable. NOT claimed (DESIGN.md §4).
+//! Tried and dropped (measured): parse -> write -> parse on symbolic bytes, (a) whole messages
+//! of 4..12 bytes, (b) single arguments with a concrete kind and symbolic unused / reserved
+//! type-info bits: the re-parse of a value whose TypeInfo flags are symbolic explores all eight
+//! argument kinds and exceeds 8 GB in every variant. What the other harnesses say about it:
+//! c14_type_info_all (decode . encode . decode == decode for all 2^32 words, re-encoding differs
+//! only in unused bits), c02_dec_* (HTYP / MSIN re-encode to the same byte for all inputs),
+//! c14_control_value_roundtrip (service id), c01_arg_* (parse . write == id for canonical values).
